@@ -113,7 +113,9 @@ OtherGuami == [GUAMI |-> [GuamiV EXCEPT !.PLMNIdentity = [Value |-> OtherPlmn]],
 PlmnSupportItem(pl) == [PLMNIdentity |-> [Value |-> pl], SliceSupportList |-> [List |-> << [SNSSAI |-> SnssaiV] >>]]
 NgSetupResponse ==
    NgapPdu(1, Proc.NGSetup, 0, "NGSetupResponse",
-      << IeR(1, 0, "AMFName", [Value |-> <<65, 77, 70>>]),
+      \* (the AMF's name is its own business: "AMF", or - scenario field amfName - any PrintableString of 1..150 characters, blanks and
+      \* the symbols ' ( ) + , - . / : = ? included)
+      << IeR(1, 0, "AMFName", [Value |-> IF "amfName" \in DOMAIN Scn /\ Len(Scn.amfName) > 0 THEN Scn.amfName ELSE <<65, 77, 70>>]),
          IeR(96, 0, "ServedGUAMIList", [List |-> (IF OtherFirst THEN << OtherGuami >> ELSE <<>>) \o << [GUAMI |-> GuamiV] >>
                                                   \o (IF OtherLast THEN << OtherGuami >> ELSE <<>>)]),
          IeR(86, 1, "RelativeAMFCapacity", [Value |-> [n |-> 255]]),
